@@ -156,10 +156,12 @@ def tamper(raw):
     return bytes(b)
 
 
-def random_session(run, rng, KC, KS, tau, d, Tconn, n_events, dup=0.15, junk=0.05, regular=False):
-    """a random admissible-by-construction schedule: both sides tick with gaps <= tau, every emitted
-    datagram is planned for the peer within the delay bound (reordering falls out of the random
-    delays), copies and junk are mixed in"""
+def random_session(run, rng, KC, KS, tau, d, Tconn, n_events, dup=0.15, junk=0.05, regular=False, loss=0.0):
+    """a random schedule, admissible by construction when loss = 0: both sides tick with gaps <= tau (the
+    client also whenever a datagram becomes due for it: it reads one datagram per update()), every emitted
+    datagram is planned for the peer within the delay bound (reordering falls out of the random delays),
+    copies and tampered copies are mixed in; with loss > 0 some datagrams are never shown (inadmissible:
+    only the correspondence and the agreement on admissibility are checked then)"""
     p = Pair(run, rng, KC, KS, Tconn)
     q15 = lambda x: (x // 15) * 15
     gap = (lambda: tau) if regular else (lambda: 15 * rng.randrange(1, tau // 15 + 1))
@@ -168,20 +170,23 @@ def random_session(run, rng, KC, KS, tau, d, Tconn, n_events, dup=0.15, junk=0.0
     seen = {"client": 0, "server": 0}
 
     def plan():
-        for who, lst, slack in (("client", to_server, 0), ("server", to_client, tau)):
+        for who, lst in (("client", to_server), ("server", to_client)):
             while seen[who] < len(p.em[who]):
                 seen[who] += 1
                 rec = p.em[who][seen[who] - 1]
-                room = max(0, d - slack)
-                lst.append((rec["time"] + q15(rng.randrange(0, room + 1)), seen[who]))
+                if rng.random() < loss:
+                    continue
+                lst.append((rec["time"] + q15(rng.randrange(0, d + 1)), seen[who]))
                 if rng.random() < dup:
-                    lst.append((rec["time"] + q15(rng.randrange(0, room + 1)), seen[who]))
+                    lst.append((rec["time"] + q15(rng.randrange(0, d + 1)), seen[who]))
 
     for _ in range(n_events):
-        due_s = min([x[0] for x in to_server], default=None)
+        now = p.times[-1]
         cands = [(next_c, 0), (next_s, 2)]
-        if due_s is not None:
-            cands.append((max(due_s, p.times[-1]), 1))
+        if to_server:
+            cands.append((max(min(to_server)[0], now), 1))
+        if to_client:
+            cands.append((max(min(to_client)[0], now), 0))
         tmin = min(c[0] for c in cands)
         kind = rng.choice([c[1] for c in cands if c[0] == tmin])
         if kind == 0:
